@@ -204,7 +204,7 @@ pub fn run(ctx: &Ctx) -> Outcome {
         let mut rng = ctx.rng("random_larger", i);
         let (sw, sh, dw, dh) = (rng.int(0, 12) as i32, rng.int(0, 12) as i32, rng.int(0, 12) as i32, rng.int(0, 12) as i32);
         let far = rng.chance(0.1);
-        let lim = if far { 1_000_000 } else { 16 };
+        let lim = if far { 100_000_000 } else { 16 };
         let near = !far && rng.chance(0.8);
         let x0 = if near { rng.int(-3, sw as i64) as i32 } else { rng.int(-lim, lim) as i32 };
         let y0 = if near { rng.int(-3, sh as i64) as i32 } else { rng.int(-lim, lim) as i32 };
